@@ -130,11 +130,23 @@ def engines(tier):
     return [Engine("C11", project=proj_kinds)]
 
 
+def _message_part():
+    # producing the MESSAGE of a mock-induced panic must not panic itself (a panic while a panic is being reported aborts the process):
+    # every error kind with long / non-ASCII argument renderings and pattern texts
+    from .C19 import MessagePart
+    return MessagePart("C11")
+
+
 def run(tier, seed):
     return run_coexec("C11", tier, seed, module=MODULE, theorems=THEOREMS, gen_cases=gen_cases,
                       nontrivial=nontrivial, rule=RULE, engines=engines(tier), stats=stats,
-                      extra_cov={"exhaustive": True})
+                      extra_cov={"exhaustive": True}, parts=[_message_part()])
 
 
 def replay(path):
+    import json
+    payload = json.load(open(path))
+    if payload.get("part") == "messages":
+        from .C19 import replay_messages
+        return replay_messages("C11", payload, path)
     return replay_coexec("C11", path, lambda p: Engine("C11", project=proj_kinds))
